@@ -5,7 +5,7 @@ import PoxModel.Proofs.TcpOpts
 `parse`, length and checksum fields.  Core only.
 -/
 namespace Pox.Packet
-open Pox Pox.Layout Pox.Checksum
+open Pox Pox.PktLayout Pox.Checksum
 
 theorem be1 (n : Nat) : beEnc 1 n = [UInt8.ofNat n] := by simp [beEnc]
 
